@@ -392,5 +392,12 @@ func genRegistryAccess() {
 	}
 	out := "(* GENERATED by /verif/translator from require/module.go, require/resolve.go — do not edit *)\nFrom Coq Require Import String List.\nImport ListNotations.\n"
 	out += "Definition registry_access : list (string * string * string * bool * list string * bool) := [\n  " + strings.Join(outRows, ";\n  ") + "\n]%string.\n"
+	// getCompiledSource: r.Lock(); defer r.Unlock() as its first two statements: the cache lookup, the load, the compilation
+	// and the store form one critical section, so concurrent first-time requests are served one after the other
+	locked := false
+	if fd := findFunc(mf, "Registry", "getCompiledSource"); fd != nil && len(fd.Body.List) >= 3 {
+		locked = stmtsString(fd.Body.List[:2]) == "r.Lock();defer r.Unlock()" && !strings.Contains(stmtsString(fd.Body.List[2:]), "r.Unlock()")
+	}
+	out += fmt.Sprintf("Definition getcompiled_locked_throughout : bool := %v.\n", locked)
 	writeIfChanged("RegistryAccess.v", out)
 }
